@@ -239,6 +239,7 @@ CMP_IMPLIES = {  # (op, a_is_id) -> relation of (counter ? id) on the TRUE edge 
 
 
 def r4(ctx, facts):
+    r4_writers(ctx, facts)
     impls = [b for b in facts.bodies if b.trait_item == ALLOC and b.impl]
     ctx.floor("C15-R4", "MarkerAllocator::allocate impls", len(impls), 1)
     for b in impls:
@@ -321,3 +322,47 @@ def r4(ctx, facts):
                "" if res is True else ("on the explicit-id path the counter `%s` is not known to exceed the id at return (a comparison edge that only gives "
                                        "counter >= id, or no update): the next freshly allocated marker can repeat a loaded id" % cnt[0] if bad else
                                        "could not follow how the counter is updated on the explicit-id path"))
+
+
+SMA = "saveload::marker::SimpleMarkerAllocator"
+
+
+def r4_writers(ctx, facts):
+    """who writes the marker allocator's state.  The invariants `counter > every id in the mapping` and `counter never decreases` are decided for
+    allocate() (above) and hold trivially for the constructors (0 / empty) and for maintain() (rebuilds the mapping only).  Any OTHER body that
+    stores into the counter or the mapping, or builds an allocator value with a non-constant counter (a bulk `mark_all`, a `from_storage`
+    constructor ..), computes ids by its own arithmetic: whether the invariants survive is value-dependent - reported as undetermined with the
+    site, never silently accepted and never a violation."""
+    adt = facts.adts.get(SMA)
+    if not adt:
+        return
+    names = [f["name"] for f in adt["variants"][0]["fields"]]
+    state = [n for n in names if not n.startswith("_")]
+    for b in facts.bodies:
+        if b.kind == "Closure":
+            par = facts.closure_site(b)
+        ti = b.trait_item or ""
+        known = ti in (ALLOC, "saveload::marker::MarkerAllocator::maintain", "std::clone::Clone::clone", "std::default::Default::default", "std::fmt::Debug::fmt") or \
+            (b.name == "new" and base_ty(b.self_ty or "") == SMA)
+        sites = []
+        if base_ty(b.self_ty or "") == SMA and not known:
+            for sbb, si, dst, rv, line in b.stores():
+                o = b.origin(dst)
+                if o[:2] == ("param", 1) and o[2] and o[2][0] in state:
+                    sites.append("store into self.%s at %s" % (o[2][0], b.loc(sbb, line)))
+            for bb, t in b.real_calls():
+                ro = b.arg_origin(bb, 0) if t["args"] else None
+                if ro and ro[:2] == ("param", 1) and ro[2][:1] == ("mapping",) and t["callee"].get("name") in ("insert", "remove", "clear", "retain", "extend", "entry", "drain"):
+                    sites.append("%s on self.mapping at %s" % (t["callee"]["name"], b.loc(bb)))
+        if not known:
+            for bid, blk in b.blocks.items():
+                for i, st in enumerate(blk["stmts"]):
+                    rv = st["rv"]
+                    if rv["k"] == "aggregate" and rv.get("adt") == SMA and bid in b.live_blocks() and "index" in names:
+                        io = b.operand_origin(rv["ops"][names.index("index")], at=(bid, i))
+                        if io[0] != "const":
+                            sites.append("builds an allocator with a computed counter (%r) at %s" % (io[:2], b.loc(bid, st.get("line"))))
+        if sites:
+            ctx.ob("C15-R4", "%s writes the marker allocator's state" % b.path, "undetermined", b.loc(),
+                   "a further writer of the marker counter / mapping; not decided whether `counter > every id handed out` and `counter never decreases` "
+                   "survive its own arithmetic: " + "; ".join(sites[:4]))
